@@ -15,6 +15,8 @@ pub struct SchedReader<'a> {
     pub sched: &'a [usize],
     pub i: usize,
     pub fail_at: Option<usize>,
+    /// how many more reads fail right after the first failing one (consecutive failures)
+    pub repeat: usize,
     /// set when a read into a non-empty buffer returned Ok(0): the reader has reported the end
     pub eof: Option<&'a std::sync::atomic::AtomicBool>,
 }
@@ -22,7 +24,11 @@ impl<'a> Read for SchedReader<'a> {
     fn read(&mut self, buf: &mut [u8]) -> io::Result<usize> {
         if let Some(k) = self.fail_at {
             if self.pos >= k {
-                self.fail_at = None;
+                if self.repeat > 0 {
+                    self.repeat -= 1;
+                } else {
+                    self.fail_at = None;
+                }
                 // rotate through error kinds: the property makes no exception for any of them
                 let kind = fault_kind(k);
                 return Err(io::Error::new(kind, "injected read fault"));
@@ -159,10 +165,10 @@ fn stream_protocol(b: &Built, data: &[u8], si: usize, want: &[Result<M, String>]
         r.map(crate::eng::cv).map_err(|e| e.to_string())
     }
     fn generic<A: aho_corasick::automaton::Automaton>(a: A, data: &[u8], si: usize, want: &[Result<M, String>]) -> Result<(), String> {
-        gen::iter_protocol(&|| aho_corasick::automaton::Automaton::try_stream_find_iter(&a, SchedReader { data, pos: 0, sched: SCHEDS[si], i: 0, fail_at: None, eof: None }).unwrap(), &conv, want)
+        gen::iter_protocol(&|| aho_corasick::automaton::Automaton::try_stream_find_iter(&a, SchedReader { data, pos: 0, sched: SCHEDS[si], i: 0, fail_at: None, repeat: 0, eof: None }).unwrap(), &conv, want)
     }
     match b {
-        Built::Top(t) => gen::iter_protocol(&|| t.try_stream_find_iter(SchedReader { data, pos: 0, sched: SCHEDS[si], i: 0, fail_at: None, eof: None }).unwrap(), &conv, want),
+        Built::Top(t) => gen::iter_protocol(&|| t.try_stream_find_iter(SchedReader { data, pos: 0, sched: SCHEDS[si], i: 0, fail_at: None, repeat: 0, eof: None }).unwrap(), &conv, want),
         Built::NC(a) => generic(a, data, si, want),
         Built::C(a) => generic(a, data, si, want),
         Built::D(a) => generic(a, data, si, want),
@@ -247,7 +253,7 @@ pub fn check_one(rep: &Report, cfg: &Cfg, b: &Built, pats: &[Vec<u8>], data: &[u
     let want_out = oracle::splice(data, &want, &repl);
     // C07
     if do_find {
-    let got = catch_unwind(AssertUnwindSafe(|| stream_find(b, SchedReader { data, pos: 0, sched: SCHEDS[si], i: 0, fail_at: None, eof: None })));
+    let got = catch_unwind(AssertUnwindSafe(|| stream_find(b, SchedReader { data, pos: 0, sched: SCHEDS[si], i: 0, fail_at: None, repeat: 0, eof: None })));
     let ok = matches!(&got, Ok(Ok(v)) if v.len() == want.len() && v.iter().zip(&want).all(|(a, b)| a.as_ref().ok() == Some(b)));
     rep.case(!want.is_empty());
     if !ok {
@@ -276,7 +282,7 @@ pub fn check_one(rep: &Report, cfg: &Cfg, b: &Built, pats: &[Vec<u8>], data: &[u
     // C08: table replacement and closure variant
     if do_replace {
     let mut w = FaultWriter { out: vec![], fail_after: None, kind_shift: 0 };
-    let r = catch_unwind(AssertUnwindSafe(|| stream_replace(b, SchedReader { data, pos: 0, sched: SCHEDS[si], i: 0, fail_at: None, eof: None }, &mut w, &repl)));
+    let r = catch_unwind(AssertUnwindSafe(|| stream_replace(b, SchedReader { data, pos: 0, sched: SCHEDS[si], i: 0, fail_at: None, repeat: 0, eof: None }, &mut w, &repl)));
     rep.case(!want.is_empty());
     if !matches!(&r, Ok(Ok(()))) || w.out != want_out {
         fail(rep, "replace_all", cfg, pats, data, si, spare, None, format!("expected '{}', got '{}' ({:?})", show(&want_out), show(&w.out), r.map(|x| x.map_err(|e| e.to_string()))));
@@ -284,7 +290,7 @@ pub fn check_one(rep: &Report, cfg: &Cfg, b: &Built, pats: &[Vec<u8>], data: &[u
     // a writer with short writes (1 or 2 bytes per call) must still receive everything
     if let Built::Top(t) = b {
         let mut sw = ShortWriter { out: vec![], max: 1 + si % 2 };
-        let r = catch_unwind(AssertUnwindSafe(|| t.try_stream_replace_all(SchedReader { data, pos: 0, sched: SCHEDS[si], i: 0, fail_at: None, eof: None }, &mut sw, &repl)));
+        let r = catch_unwind(AssertUnwindSafe(|| t.try_stream_replace_all(SchedReader { data, pos: 0, sched: SCHEDS[si], i: 0, fail_at: None, repeat: 0, eof: None }, &mut sw, &repl)));
         rep.case(!want.is_empty());
         if !matches!(&r, Ok(Ok(()))) || sw.out != want_out {
             fail(rep, "replace_all(short-write writer)", cfg, pats, data, si, spare, None, format!("expected '{}', got '{}'", show(&want_out), show(&sw.out)));
@@ -292,7 +298,7 @@ pub fn check_one(rep: &Report, cfg: &Cfg, b: &Built, pats: &[Vec<u8>], data: &[u
     }
     let mut w2 = FaultWriter { out: vec![], fail_after: None, kind_shift: 0 };
     let mut seen = vec![];
-    let r = catch_unwind(AssertUnwindSafe(|| stream_replace_with(b, SchedReader { data, pos: 0, sched: SCHEDS[si], i: 0, fail_at: None, eof: None }, &mut w2, &mut seen)));
+    let r = catch_unwind(AssertUnwindSafe(|| stream_replace_with(b, SchedReader { data, pos: 0, sched: SCHEDS[si], i: 0, fail_at: None, repeat: 0, eof: None }, &mut w2, &mut seen)));
     let seen_ok = seen.len() == want.len() && seen.iter().zip(&want).all(|((m, bytes), w)| m == w && bytes[..] == data[w.start..w.end]);
     rep.case(!want.is_empty());
     if !matches!(&r, Ok(Ok(()))) || !seen_ok {
@@ -304,18 +310,18 @@ pub fn check_one(rep: &Report, cfg: &Cfg, b: &Built, pats: &[Vec<u8>], data: &[u
     }
     // C18 is relative to the *fault-free run of the same code*: what the real searcher yields /
     // writes without faults (not the definition, which is C07/C08's business)
-    let want: Vec<M> = match catch_unwind(AssertUnwindSafe(|| stream_find(b, SchedReader { data, pos: 0, sched: SCHEDS[si], i: 0, fail_at: None, eof: None }))) {
+    let want: Vec<M> = match catch_unwind(AssertUnwindSafe(|| stream_find(b, SchedReader { data, pos: 0, sched: SCHEDS[si], i: 0, fail_at: None, repeat: 0, eof: None }))) {
         Ok(Ok(v)) => v.into_iter().filter_map(|x| x.ok()).collect(),
         _ => want,
     };
     let want_out = {
         let mut w = FaultWriter { out: vec![], fail_after: None, kind_shift: 0 };
-        let _ = catch_unwind(AssertUnwindSafe(|| stream_replace(b, SchedReader { data, pos: 0, sched: SCHEDS[si], i: 0, fail_at: None, eof: None }, &mut w, &repl)));
+        let _ = catch_unwind(AssertUnwindSafe(|| stream_replace(b, SchedReader { data, pos: 0, sched: SCHEDS[si], i: 0, fail_at: None, repeat: 0, eof: None }, &mut w, &repl)));
         w.out
     };
     // C18: a read fault at every position k
     for k in 0..=data.len() {
-        let got = catch_unwind(AssertUnwindSafe(|| stream_find(b, SchedReader { data, pos: 0, sched: SCHEDS[si], i: 0, fail_at: Some(k), eof: None })));
+        let got = catch_unwind(AssertUnwindSafe(|| stream_find(b, SchedReader { data, pos: 0, sched: SCHEDS[si], i: 0, fail_at: Some(k), repeat: 0, eof: None })));
         rep.case(true);
         let ok = match &got {
             Ok(Ok(v)) => {
@@ -333,7 +339,7 @@ pub fn check_one(rep: &Report, cfg: &Cfg, b: &Built, pats: &[Vec<u8>], data: &[u
         // the fault is transient: a caller that keeps iterating is told "end of stream" only once
         // the reader has reported it, and what it is given stays a prefix of the fault-free run
         let eof = std::sync::atomic::AtomicBool::new(false);
-        let got2 = catch_unwind(AssertUnwindSafe(|| stream_find_resume(b, SchedReader { data, pos: 0, sched: SCHEDS[si], i: 0, fail_at: Some(k), eof: Some(&eof) })));
+        let got2 = catch_unwind(AssertUnwindSafe(|| stream_find_resume(b, SchedReader { data, pos: 0, sched: SCHEDS[si], i: 0, fail_at: Some(k), repeat: 0, eof: Some(&eof) })));
         rep.case(true);
         let ok2 = match &got2 {
             Ok(Ok((v, ended))) => {
@@ -343,11 +349,30 @@ pub fn check_one(rep: &Report, cfg: &Cfg, b: &Built, pats: &[Vec<u8>], data: &[u
             }
             _ => false,
         };
+        // ... also when the reader fails three times in a row before it recovers
+        if k % 3 == 0 {
+            let eof3 = std::sync::atomic::AtomicBool::new(false);
+            let got3 = catch_unwind(AssertUnwindSafe(|| stream_find_resume(b, SchedReader { data, pos: 0, sched: SCHEDS[si], i: 0, fail_at: Some(k), repeat: 2, eof: Some(&eof3) })));
+            rep.case(true);
+            let ok3 = match &got3 {
+                Ok(Ok((v, ended))) => {
+                    let oks: Vec<&M> = v.iter().filter_map(|x| x.as_ref().ok()).collect();
+                    let errs = v.iter().filter(|x| x.is_err()).count();
+                    let is_prefix = oks.len() <= want.len() && oks.iter().zip(&want).all(|(a, b)| *a == b);
+                    // every failing read surfaces (three items), and the end only after the reader's own
+                    is_prefix && (!*ended || (eof3.load(std::sync::atomic::Ordering::Relaxed) && errs == 3 && oks.len() == want.len()))
+                }
+                _ => false,
+            };
+            if !ok3 {
+                fail(rep, "read-fault-resume(3 consecutive failures)", cfg, pats, data, si, spare, Some(k), format!("fault-free {:?}, got (items, ended) {:?}, reader reported end of stream: {}", want, got3, eof3.load(std::sync::atomic::Ordering::Relaxed)));
+            }
+        }
         if !ok2 {
             fail(rep, "read-fault-resume", cfg, pats, data, si, spare, Some(k), format!("iteration continued after the (transient) read error: fault-free {:?}, got (items, ended) {:?}, reader reported end of stream: {}", want, got2, eof.load(std::sync::atomic::Ordering::Relaxed)));
         }
         let mut w = FaultWriter { out: vec![], fail_after: None, kind_shift: 0 };
-        let r = catch_unwind(AssertUnwindSafe(|| stream_replace(b, SchedReader { data, pos: 0, sched: SCHEDS[si], i: 0, fail_at: Some(k), eof: None }, &mut w, &repl)));
+        let r = catch_unwind(AssertUnwindSafe(|| stream_replace(b, SchedReader { data, pos: 0, sched: SCHEDS[si], i: 0, fail_at: Some(k), repeat: 0, eof: None }, &mut w, &repl)));
         rep.case(true);
         if !matches!(&r, Ok(Err(_))) || !want_out.starts_with(&w.out) {
             fail(rep, "read-fault-replace", cfg, pats, data, si, spare, Some(k), format!("fault-free output '{}', written '{}', result {:?}", show(&want_out), show(&w.out), r.map(|x| x.map_err(|e| e.to_string()))));
@@ -356,7 +381,7 @@ pub fn check_one(rep: &Report, cfg: &Cfg, b: &Built, pats: &[Vec<u8>], data: &[u
     // C18: a write fault after k bytes
     for k in 0..want_out.len() {
         let mut w = FaultWriter { out: vec![], fail_after: Some(k), kind_shift: si + data.len() };
-        let r = catch_unwind(AssertUnwindSafe(|| stream_replace(b, SchedReader { data, pos: 0, sched: SCHEDS[si], i: 0, fail_at: None, eof: None }, &mut w, &repl)));
+        let r = catch_unwind(AssertUnwindSafe(|| stream_replace(b, SchedReader { data, pos: 0, sched: SCHEDS[si], i: 0, fail_at: None, repeat: 0, eof: None }, &mut w, &repl)));
         rep.case(true);
         if !matches!(&r, Ok(Err(_))) || !want_out.starts_with(&w.out) {
             fail(rep, "write-fault", cfg, pats, data, si, spare, Some(k), format!("fault-free output '{}', written '{}', result {:?}", show(&want_out), show(&w.out), r.map(|x| x.map_err(|e| e.to_string()))));
@@ -391,7 +416,7 @@ fn huge_pattern_case(rep: &Report, n: usize, do_find: bool, do_replace: bool, fa
                 // one transient read fault in the middle; the caller keeps iterating: every match
                 // is still reported and the iterator ends only after the reader reported the end
                 let eof = std::sync::atomic::AtomicBool::new(false);
-                let got = catch_unwind(AssertUnwindSafe(|| stream_find_resume(&b, SchedReader { data: &data, pos: 0, sched: SCHEDS[si], i: 0, fail_at: Some(n + 3), eof: Some(&eof) })));
+                let got = catch_unwind(AssertUnwindSafe(|| stream_find_resume(&b, SchedReader { data: &data, pos: 0, sched: SCHEDS[si], i: 0, fail_at: Some(n + 3), repeat: 0, eof: Some(&eof) })));
                 rep.case(true);
                 let ok = match &got {
                     Ok(Ok((v, ended))) => {
@@ -406,7 +431,7 @@ fn huge_pattern_case(rep: &Report, n: usize, do_find: bool, do_replace: bool, fa
                 continue;
             }
             if do_find {
-                let got = catch_unwind(AssertUnwindSafe(|| stream_find(&b, SchedReader { data: &data, pos: 0, sched: SCHEDS[si], i: 0, fail_at: None, eof: None })));
+                let got = catch_unwind(AssertUnwindSafe(|| stream_find(&b, SchedReader { data: &data, pos: 0, sched: SCHEDS[si], i: 0, fail_at: None, repeat: 0, eof: None })));
                 rep.case(true);
                 let ok = matches!(&got, Ok(Ok(v)) if v.len() == want.len() && v.iter().zip(&want).all(|(a, b)| a.as_ref().ok() == Some(b)));
                 if !ok {
@@ -415,7 +440,7 @@ fn huge_pattern_case(rep: &Report, n: usize, do_find: bool, do_replace: bool, fa
             }
             if do_replace {
                 let mut w = FaultWriter { out: vec![], fail_after: None, kind_shift: 0 };
-                let r = catch_unwind(AssertUnwindSafe(|| stream_replace(&b, SchedReader { data: &data, pos: 0, sched: SCHEDS[si], i: 0, fail_at: None, eof: None }, &mut w, &repl)));
+                let r = catch_unwind(AssertUnwindSafe(|| stream_replace(&b, SchedReader { data: &data, pos: 0, sched: SCHEDS[si], i: 0, fail_at: None, repeat: 0, eof: None }, &mut w, &repl)));
                 rep.case(true);
                 if !matches!(&r, Ok(Ok(()))) || w.out != want_out {
                     rep.fail(Fail { key: format!("stream:huge:replace:{}", n), what: format!("stream replacement with a {}-byte pattern [{}]: {} bytes written, expected '{}'", n, cfg.encode(), w.out.len(), show(&want_out)), argv: vec!["stream".into()] });
@@ -468,14 +493,14 @@ fn large_stream_case(rep: &Report, do_find: bool, do_replace: bool) {
             if do_replace {
                 let want = t.replace_all_bytes(&data, &repl);
                 let mut w = FaultWriter { out: vec![], fail_after: None, kind_shift: 0 };
-                let r = catch_unwind(AssertUnwindSafe(|| t.try_stream_replace_all(SchedReader { data: &data, pos: 0, sched: SCHEDS[4], i: 0, fail_at: None, eof: None }, &mut w, &repl)));
+                let r = catch_unwind(AssertUnwindSafe(|| t.try_stream_replace_all(SchedReader { data: &data, pos: 0, sched: SCHEDS[4], i: 0, fail_at: None, repeat: 0, eof: None }, &mut w, &repl)));
                 rep.case(true);
                 if !matches!(&r, Ok(Ok(()))) || w.out != want {
                     rep.fail(Fail { key: format!("stream:large:replace:{}", total), what: format!("stream replacement of a {}-byte stream [{}]: {} bytes written, the in-memory replacement has {} ({:?})", total, cfg.encode(), w.out.len(), want.len(), r.map(|x| x.map_err(|e| e.to_string()))), argv: vec!["stream".into()] });
                 }
                 let mut w2 = FaultWriter { out: vec![], fail_after: None, kind_shift: 0 };
                 let mut nseen = 0usize;
-                let r2 = catch_unwind(AssertUnwindSafe(|| t.try_stream_replace_all_with(SchedReader { data: &data, pos: 0, sched: SCHEDS[4], i: 0, fail_at: None, eof: None }, &mut w2, |m, _b, w| { nseen += 1; w.write_all(&repl[m.pattern().as_usize()]) })));
+                let r2 = catch_unwind(AssertUnwindSafe(|| t.try_stream_replace_all_with(SchedReader { data: &data, pos: 0, sched: SCHEDS[4], i: 0, fail_at: None, repeat: 0, eof: None }, &mut w2, |m, _b, w| { nseen += 1; w.write_all(&repl[m.pattern().as_usize()]) })));
                 rep.case(true);
                 if !matches!(&r2, Ok(Ok(()))) || w2.out != want {
                     rep.fail(Fail { key: format!("stream:large:replace_with:{}", total), what: format!("stream replacement (closure) of a {}-byte stream [{}]: {} bytes written, expected {}", total, cfg.encode(), w2.out.len(), want.len()), argv: vec!["stream".into()] });
@@ -483,7 +508,7 @@ fn large_stream_case(rep: &Report, do_find: bool, do_replace: bool) {
             }
             if do_find {
                 let want: Vec<M> = t.find_iter(&data).map(cv).collect();
-                let got = catch_unwind(AssertUnwindSafe(|| stream_find(&Built::Top(t.clone()), SchedReader { data: &data, pos: 0, sched: SCHEDS[4], i: 0, fail_at: None, eof: None })));
+                let got = catch_unwind(AssertUnwindSafe(|| stream_find(&Built::Top(t.clone()), SchedReader { data: &data, pos: 0, sched: SCHEDS[4], i: 0, fail_at: None, repeat: 0, eof: None })));
                 rep.case(true);
                 let ok = matches!(&got, Ok(Ok(v)) if v.len() == want.len() && v.iter().zip(&want).all(|(a, b)| a.as_ref().ok() == Some(b)));
                 if !ok {
@@ -526,6 +551,9 @@ pub fn run(args: &Args) -> Report {
     lists.push(vec![b"BAB".to_vec()]);
     lists.push(vec![b"A".to_vec(), b"Bb".to_vec()]);
     lists.push(vec![b"aaaaaaaaaaaa".to_vec(), b"aab".to_vec(), b"b".to_vec()]);
+    // multi-byte UTF-8 text patterns (byte length well above the character count)
+    lists.push(vec!["\u{20AC}\u{20AC}".as_bytes().to_vec(), "a\u{e9}b".as_bytes().to_vec()]);
+    lists.push(vec!["\u{1F600}\u{1F600}\u{1F600}".as_bytes().to_vec(), b"b".to_vec()]);
     // no patterns at all: nothing to find, but the reader is still read (and its failures surface)
     lists.push(vec![]);
     // a pattern longer than 8 KiB: the retained tail (min) times 8 exceeds the default capacity
@@ -544,6 +572,10 @@ pub fn run(args: &Args) -> Report {
     for _ in 0..(if thorough { 40 } else { 10 }) {
         let l = 8 + rng.below(33);
         datas.push(rng.bytes(b"ab", l));
+    }
+    // streams that contain the text patterns, whole and cut
+    for t in ["a\u{20AC}\u{20AC}b\u{20AC}", "\u{1F600}\u{1F600}\u{1F600}\u{1F600}b", "ba\u{e9}b\u{20AC}\u{20AC}\u{20AC}a\u{e9}b"] {
+        datas.push(t.as_bytes().to_vec());
     }
     let mut cfgs: Vec<Cfg> = [(Engine::LowNonContig, StartKindC::B), (Engine::LowContig, StartKindC::B), (Engine::LowDfa, StartKindC::U), (Engine::TopAuto, StartKindC::U), (Engine::TopContig, StartKindC::B)]
         .iter()
